@@ -2640,6 +2640,15 @@ impl SctpInner {
         }
         let tsn = buf.get_u32();
 
+        // DATA arriving while we are still in COOKIE-ECHOED shows that the peer already
+        // considers the association established and that its COOKIE ACK was lost or is
+        // late: treat it as an implicit COOKIE ACK, so the channels are announced open
+        // before a message is delivered on them.
+        let cookie_echoed = matches!(*self.t1_chunk.lock(), Some((CT_COOKIE_ECHO, _, _)));
+        if cookie_echoed {
+            self.handle_cookie_ack(Bytes::new()).await?;
+        }
+
         // Deduplication and Ordering Check
         let cumulative_ack = self.cumulative_tsn_ack.load(Ordering::Relaxed);
         let diff = tsn.wrapping_sub(cumulative_ack);
